@@ -600,7 +600,26 @@ class ndarray:
             return _ufunc1(self, lambda a: _mul(a, a))
         if p == 1:
             return self.copy()
+        if isinstance(p, int) and not isinstance(p, bool) and 0 <= p <= 16:
+            def power(a, _p=p):
+                r = 1
+                for _ in builtins_range(_p):
+                    r = _mul(r, a)
+                return r
+            return _ufunc1(self, power)
         raise ModelGap("array power %r" % (p,))
+
+    def __rpow__(self, base):
+        # base ** array: concrete non-negative integer exponents only
+        def power(e, _b=base):
+            e = _unbox(e)
+            if not isinstance(e, int) or isinstance(e, bool) or e < 0 or e > 64:
+                raise ModelGap("power with exponent %r" % (e,))
+            r = 1
+            for _ in builtins_range(e):
+                r = _mul(r, _b)
+            return r
+        return _ufunc1(self, power)
 
     def __lt__(self, o): return self._bin(o, lambda a, b: a < b, "b")
     def __le__(self, o): return self._bin(o, lambda a, b: a <= b, "b")
@@ -998,6 +1017,51 @@ def arange(*args):
     args = [int(a) for a in args]
     r = list(range(*args))
     return ndarray.fresh(r, (len(r),), "i8")
+
+
+def pad(a, pad_width, mode="constant", constant_values=0, **kw):
+    a = asarray(a)
+    if mode != "constant" or kw:
+        raise ModelGap("np.pad mode=%r" % (mode,))
+    nd = a.ndim
+    if isinstance(pad_width, (int, SymInt)):
+        pw = [(int(pad_width), int(pad_width))] * nd
+    else:
+        pw = list(pad_width)
+        if len(pw) == 2 and all(isinstance(x, (int, SymInt)) for x in pw):
+            pw = [(int(pw[0]), int(pw[1]))] * nd
+        elif len(pw) == 1 and nd > 1:
+            pw = [tuple(int(x) for x in pw[0])] * nd
+        else:
+            pw = [(int(x[0]), int(x[1])) if not isinstance(x, (int, SymInt)) else (int(x), int(x)) for x in pw]
+    if isinstance(constant_values, (list, tuple, ndarray)):
+        raise ModelGap("np.pad with per-axis constant_values")
+    shape = tuple(a.shape[d] + pw[d][0] + pw[d][1] for d in builtins_range(nd))
+    fill = _cast(constant_values, a._dt)
+    src = list(a.flat)
+    strides = []
+    acc = 1
+    for d in reversed(builtins_range(nd)):
+        strides.insert(0, acc)
+        acc *= a.shape[d]
+    out = []
+    idx = [0] * nd
+    total = prod_(shape)
+    for flat in builtins_range(total):
+        rem = flat
+        inside = True
+        off = 0
+        for d in builtins_range(nd):
+            step = prod_(shape[d + 1:]) if d + 1 < nd else 1
+            i = rem // step
+            rem = rem % step
+            j = i - pw[d][0]
+            if j < 0 or j >= a.shape[d]:
+                inside = False
+                break
+            off += j * strides[d]
+        out.append(src[off] if inside else fill)
+    return ndarray.fresh(out, shape, a._dt)
 
 
 def vdot(a, b):
@@ -1922,6 +1986,29 @@ class _Char:
             raise ModelGap("np.char.decode with lossy / non-default codec %r %r" % (encoding, errors))
         return ndarray.fresh(a.flat, a.shape, "U")
 
+
+    @staticmethod
+    def add(a, b):
+        """element-wise concatenation of concrete strings (one operand may be a scalar)"""
+        def conc(x):
+            x = _unbox(x)
+            if type(x).__name__ == "SymStr":
+                raise ModelGap("np.char.add of a symbolic name")
+            return x
+        A = _as(a) if isinstance(a, (ndarray, list, tuple)) else None
+        B = _as(b) if isinstance(b, (ndarray, list, tuple)) else None
+        for X in (A, B):
+            if X is not None and X._dt not in ("U", "O"):
+                raise TypeError("string operation on non-string array")
+        if A is None and B is None:
+            return ndarray.fresh([conc(a) + conc(b)], (), "U")
+        if A is None:
+            return ndarray.fresh([conc(a) + conc(v) for v in B.flat], B.shape, "U")
+        if B is None:
+            return ndarray.fresh([conc(v) + conc(b) for v in A.flat], A.shape, "U")
+        if A.shape != B.shape:
+            raise ModelGap("np.char.add with broadcasting between arrays")
+        return ndarray.fresh([conc(x) + conc(y) for x, y in zip(A.flat, B.flat)], A.shape, "U")
 
     # ---- element-wise string methods on concrete strings (symbolic names are atoms without characters: ModelGap)
     @staticmethod
